@@ -525,8 +525,13 @@ BigArithContract(e) ==
         ELSE Verdict(Fl("simplify_exact_on_huge_constants", Right(e.simp)) \o
                      Fl("get_value_exact_on_huge_constants", Right(e.gv)) \o
                      Fl("printed_numerals_are_the_constants",
-                        ~isInt \/ e.op = "toreal" \/ e.txt = <<e.a, e.b>>) \o
-                     Fl("print_parse_returns_same_object", e.back), <<>>, -1)
+                        \/ e.op = "toreal"
+                        \/ isInt /\ e.txt = <<e.a, e.b>> /\ SeqSet(e.dtxt) = {e.a, e.b}       \* tree printer, let-DAG printer
+                        \/ ~isInt /\ \/ e.op = "div"                                          \* (/ a b) reads like one literal
+                                     \/ /\ Len(e.qtxt) = 2 /\ BN!QMk(e.qtxt[1].n, e.qtxt[1].d) = qa /\ BN!QMk(e.qtxt[2].n, e.qtxt[2].d) = qb
+                                        /\ {BN!QMk(x.n, x.d) : x \in SeqSet(e.dqtxt)} = {qa, qb}) \o
+                     Fl("print_parse_returns_same_object", e.back) \o
+                     Fl("human_readable_round_trip_keeps_the_meaning", e.hr = "unparsed" \/ Right(e.hrsimp)), <<>>, -1)
 
 (* Bit-vector operators at widths beyond the exhaustive range (32, 33, 64, 65, 128 bits): a, b = operand values
    as decimal digit sequences, p = parameters (extract hi lo / extension or rotation amount), simp / gv = what
